@@ -44,12 +44,15 @@ func TestCheck(t *testing.T) {
 		tokenBucket(r)
 		batchedAcquire(r)
 		tokenBucketReconfigured(r)
+		tokenBucketReconfiguredWhileAsked(r)
 		r.ReportSched()
 		r.Require(r.Counter("seq_ops") >= 20000 && r.Counter("seq_increase_applied") >= 1000 && r.Counter("seq_increase_refused") >= 1000 &&
 			r.Counter("seq_boundary_counts") >= 2000 && r.Counter("seq_asks_whose_sum_exceeds_int32") >= 300 && r.Counter("batch_boundary_counts") >= 1000 &&
-			r.Counter("seq_stale_id") >= 500 && r.Counter("seq_stale_id_far_behind") >= 300 && r.Counter("seq_removals") >= 500 && r.Counter("seq_decrease_while_over_limit") >= 100, "sequential part observed too little")
+			r.Counter("seq_negative_id_after_a_positive_one") >= 200 && r.Counter("seq_stale_id") >= 500 && r.Counter("seq_stale_id_far_behind") >= 300 && r.Counter("seq_removals") >= 500 && r.Counter("seq_decrease_while_over_limit") >= 100, "sequential part observed too little")
 		r.Require(r.Counter("batch_racing-removals") >= 50 && r.Counter("batch_removal-vs-own-report") >= 50 && r.Counter("batch_reports") >= 50 &&
-			r.Counter("batch_reports-multiwriter") >= 50 && r.Counter("batch_removals-vs-other-reports") >= 50 && r.Counter("batch_reports+resize") >= 50, "too few concurrent batches")
+			r.Counter("batch_reports-multiwriter") >= 50 && r.Counter("batch_removals-vs-other-reports") >= 50 && r.Counter("batch_reports+resize") >= 50 &&
+			r.Counter("batch_racing-removals+resize") >= 50 && r.Counter("batch_removal-vs-own-report+resize") >= 50 && r.Counter("batch_negative_asks_racing") >= 200, "too few concurrent batches")
+		r.Require(r.Counter("seq_cases_with_60_instances") >= 100 && r.Counter("seq_ids_at_the_top_of_int64") >= 200, "too few cases with many instances / ids at the top of the int64 range")
 		r.Require(r.Counter("seq_cases_with_realistic_identities") >= 200 && r.Counter("seq_reinit_schema-recreated") >= 100 && r.Counter("seq_reinit_type-toggled") >= 100 && r.Counter("seq_reinit_leader-restart") >= 100,
 			"too few cases with realistic identities / re-initialisations of the flow control")
 		r.Require(r.Counter("batch_increase_refused") >= 200 && r.Counter("batch_decreases") >= 200, "batches did not reach the limit")
@@ -181,6 +184,29 @@ func (v *viaServer) Set(in In) Out {
 
 func (v *viaServer) Resize(max int32) { _ = v.apply(max) }
 
+type askOut struct {
+	refusedWithError bool
+	accept           bool
+	limit            int32
+	err              string
+}
+
+// ask sends one raw DoAcquire item (any token amount, id 0) and tells how it was answered.
+func (v *viaServer) ask(inst string, tokens int32) askOut {
+	req := &proxyv1alpha1.RateLimitAcquire{ObjectMeta: metav1.ObjectMeta{Name: v.upstream},
+		Spec: proxyv1alpha1.RateLimitAcquireSpec{Instance: inst, Requests: []proxyv1alpha1.RateLimitAcquireRequest{{FlowControl: "s", Tokens: tokens}}}}
+	var res *proxyv1alpha1.RateLimitAcquire
+	var err error
+	if p := vkit.Safely(func() { res, err = v.srv.Limiter.DoAcquire(v.upstream, req) }); p != nil {
+		return askOut{err: fmt.Sprintf("panic: %v", p)}
+	}
+	if err != nil || res == nil || len(res.Status.Results) != 1 {
+		return askOut{refusedWithError: err != nil, err: fmt.Sprint(err)}
+	}
+	rs := res.Status.Results[0]
+	return askOut{refusedWithError: !rs.Accept && rs.Error != "", accept: rs.Accept, limit: rs.Limit, err: rs.Error}
+}
+
 // recreate: the schema is removed from the cluster and added again under the same name (a new flow-control object).
 func (v *viaServer) recreate(max int32) error {
 	c := &proxyv1alpha1.UpstreamCluster{ObjectMeta: metav1.ObjectMeta{Name: v.upstream}}
@@ -228,10 +254,12 @@ func classify(m *Model, in In, out Out) string {
 		return "removal-answer"
 	}
 	cur, exists := m.Inst[in.Instance]
-	stale := in.ID > 0 && exists && in.ID <= cur.LastID
+	stale := in.ID != 0 && exists && cur.HasID && in.ID <= cur.LastID
 	switch {
 	case stale && !out.TooOld:
 		switch {
+		case in.ID < 0:
+			return "stale-id-accepted/negative-id"
 		case in.ID == cur.LastID:
 			return "stale-id-accepted/equal-id"
 		case cur.LastID-in.ID > 1e9:
@@ -357,6 +385,14 @@ func sequential(r *vkit.R) {
 			names = []string{"10.0.0.7:6443-a", "10.0.0.7-6443-a", "[fd00::1]:6443-b", "Node.A_1", "gw-é中", strings.Repeat("n", 70) + "-x"}[:k+1]
 			r.Count("seq_cases_with_realistic_identities", 1)
 		}
+		if i%25 == 7 { // many instances on one flow control
+			k = 60
+			names = make([]string, k)
+			for q := range names {
+				names[q] = fmt.Sprintf("gw%d", q)
+			}
+			r.Count("seq_cases_with_60_instances", 1)
+		}
 		nano := i%3 != 0 // request ids at UnixNano scale (what gateways send) vs small integers
 		nextID := map[string]int64{}
 		var trace []seqOp
@@ -431,8 +467,10 @@ func sequential(r *vkit.R) {
 						if in.ID == math.MinInt64 { // keep away from the overflow itself
 							in.ID++
 						}
-						if in.ID <= 0 {
-							r.Count("seq_nonpositive_id", 1) // ids <= 0 are not subject to the id rule (model.go)
+						if in.ID < 0 {
+							r.Count("seq_negative_id_after_a_positive_one", 1) // not newer than what was processed: must be refused
+						} else if in.ID == 0 {
+							r.Count("seq_zero_id", 1) // "no id": not subject to the id rule (model.go)
 						} else if latest-in.ID > 1e9 {
 							r.Count("seq_stale_id_far_behind", 1)
 						}
@@ -447,7 +485,13 @@ func sequential(r *vkit.R) {
 						if nextID[inst] == 0 {
 							nextID[inst] = 1700000000e9 + int64(g.Intn(1e9)) // RequestID = time.Now().UnixNano() at the gateway
 						}
-						nextID[inst] += []int64{1, 1000, 1e6, 2e8, 9e8, 2e9, 4e10, 1e12}[g.Intn(8)]
+						if nextID[inst] < math.MaxInt64-2e12 {
+							nextID[inst] += []int64{1, 1000, 1e6, 2e8, 9e8, 2e9, 4e10, 1e12}[g.Intn(8)]
+						}
+						if g.Chance(0.01) { // the top of the int64 range: after MaxInt64 no id is newer any more
+							nextID[inst] = []int64{math.MaxInt64 - 1, math.MaxInt64}[g.Intn(2)]
+							r.Count("seq_ids_at_the_top_of_int64", 1)
+						}
 					} else {
 						nextID[inst] += int64(g.Range(1, 3))
 					}
@@ -559,7 +603,8 @@ type callRec struct {
 	Return int64 `json:"return"`
 }
 
-var batchKinds = []string{"reports", "reports-multiwriter", "removals-vs-other-reports", "racing-removals", "removal-vs-own-report", "reports+resize"}
+var batchKinds = []string{"reports", "reports-multiwriter", "removals-vs-other-reports", "racing-removals", "removal-vs-own-report", "reports+resize",
+	"racing-removals+resize", "removal-vs-own-report+resize"}
 
 // runClients runs each client's op list in its own goroutine (ids for reports are drawn from the per-instance counter right
 // before the call, so they increase in send order while arrival may be re-ordered) and returns the calls with logical times.
@@ -684,7 +729,7 @@ func batches(r *vkit.R) {
 				for _, in := range insts {
 					clients = append(clients, genReports(in, g.Range(2, 4)))
 				}
-			case "racing-removals":
+			case "racing-removals", "racing-removals+resize":
 				for w := 0; w < g.Range(2, 4); w++ {
 					clients = append(clients, []In{rm(victim)})
 				}
@@ -693,7 +738,7 @@ func batches(r *vkit.R) {
 						clients = append(clients, genReports(in, g.Range(1, 2)))
 					}
 				}
-			case "removal-vs-own-report":
+			case "removal-vs-own-report", "removal-vs-own-report+resize":
 				clients = append(clients, []In{rm(victim)})
 				clients = append(clients, genReports(victim, g.Range(1, 3)))
 				for _, in := range insts {
@@ -704,13 +749,33 @@ func batches(r *vkit.R) {
 			}
 			var extra []func()
 			oldMax := max
-			if kind == "reports+resize" { // the limit changes WHILE reports are being processed
+			if strings.HasSuffix(kind, "+resize") { // the limit changes WHILE reports / removals are being processed
 				nm := c32(rng(g, 1, 2*int64(max)))
 				if g.Bool() && sumBefore > 1 {
 					nm = c32(rng(g, 1, sumBefore))
 				}
 				extra = append(extra, func() { tg.Resize(nm) })
 				max = nm
+			}
+			if vs, ok := tg.(*viaServer); ok && g.Chance(0.4) {
+				// negative asks through DoAcquire race with the batch: each must be refused and change nothing (the accounting and
+				// per-call checks below would show it)
+				var victims []string
+				for q, nq := 0, g.Range(1, 4); q < nq; q++ {
+					victims = append(victims, insts[g.Intn(len(insts))])
+				}
+				neg := -int32(g.Range(1, 9))
+				if g.Chance(0.2) {
+					neg = math.MinInt32
+				}
+				extra = append(extra, func() {
+					for _, in := range victims {
+						r.Count("batch_negative_asks_racing", 1)
+						if out := vs.ask(in, neg); !out.refusedWithError {
+							r.Violation("C08/doacquire/negative-ask-not-refused/racing", fmt.Sprintf("DoAcquire(%s, tokens=%d) racing with reports answered accept=%v limit=%d error=%q", in, neg, out.accept, out.limit, out.err), nil)
+						}
+					}
+				})
 			}
 			calls := runClients(tg, clients, ids, extra...)
 			r.Count("batch_"+kind, 1)
@@ -774,7 +839,7 @@ func batches(r *vkit.R) {
 				return
 			}
 			// per call (kinds with one writer per instance and no removal of that instance: its record is known exactly)
-			if kind == "reports" || kind == "removals-vs-other-reports" || kind == "racing-removals" || kind == "reports+resize" {
+			if kind == "reports" || kind == "removals-vs-other-reports" || kind == "racing-removals" || kind == "reports+resize" || kind == "racing-removals+resize" {
 				known := copyMap(rec)
 				last := map[string]int64{}
 				bad := false
@@ -794,7 +859,7 @@ func batches(r *vkit.R) {
 							if sumBefore > int64(max) {
 								ctx = "limit-below-total"
 							}
-							if kind == "reports+resize" {
+							if strings.HasSuffix(kind, "+resize") {
 								ctx = "racing-limit-change"
 							}
 							r.Violation("C08/maxinflight/concurrent/decrease-not-applied/"+ctx,
